@@ -537,7 +537,7 @@ class Context:
         """A model of the path condition for cross-validation, preferring generic
         values (non-zero, moderate magnitude) so that the float run is well conditioned."""
         for extra in (self._nice(nonzero=True), self._nice()):
-            v, m = self.full_model(And.make(extra), self.t_branch * 2)
+            v, m = self.full_model(And.make(extra), 2000)
             if v == 'sat':
                 return v, m
         return self.full_model(TRUE, self.t_claim)
@@ -960,7 +960,7 @@ class ConcreteContext:
         b = float(b)
         if a != a or b != b:
             return False
-        return a <= b + self._tol(a, b) + (self.BOUND_FACTOR - 1) * abs(b)
+        return a <= b + self._tol(a, b)
 
     def lt(self, a, b):
         return self.le(a, b)
